@@ -815,6 +815,19 @@ def make_stack(spec):
                 e_ = np.array([1.0, 0.0, 0.0]) if n0[1] or n0[2] else np.array([0.0, 1.0, 0.0])
                 A["segment_vectors"][0] = np.cross(n0, e_)
                 A["start_points"][0] = A["points_on_plane"][0] + np.cross(n0, np.cross(n0, e_))
+        if spec["stream"] == "lattice" and A is not None and k >= 2 and spec["seed"] % 2 == 0 and \
+                e.name in ("line.coplanar_points_are_on_same_side_of_line", "tri.tri_contains_coplanar_point") and \
+                all(isinstance(v, np.ndarray) and v.ndim == 2 and len(v) == k for v in A.values()):
+            # a yes/no answer per row: a large row next to a unit-sized row whose point is a hair (2^-30) on the "no" side --
+            # a tolerance or normalisation taken over the whole stack answers "yes" for the small row (all dyadic: exact)
+            h = 2.0 ** -30
+            if e.name.startswith("line."):
+                A["a"][0], A["b"][0], A["p1"][0], A["p2"][0] = [0, 0, 0], [4096, 0, 0], [0, 4096, 0], [8.0, 4096, 0]
+                A["a"][1], A["b"][1], A["p1"][1], A["p2"][1] = [0, 0, 0], [1, 0, 0], [0.5, 1, 0], [0.5, -h, 0]
+            else:
+                A["a"][0], A["b"][0], A["c"][0], A["point"][0] = [0, 0, 0], [4096, 0, 0], [0, 4096, 0], [1024, 1024, 0]
+                A["a"][1], A["b"][1], A["c"][1], A["point"][1] = [0, 0, 0], [1, 0, 0], [0, 1, 0], [0.5, -h, 0]
+            return S, A
         if spec["stream"] in ("float", "float-mixed") and A is not None:
             g = np.random.default_rng(spec["seed"] + 7)
             for a, kind in e.args:
